@@ -261,14 +261,18 @@ def resolve_str(base, ref):
     return show_ref(resolve(parse_ref(base), parse_ref(ref)))
 
 
+def _abs_path(p):
+    return len(p) >= 2 and p[0] == ""
+
+
 def relativize(base, t, k):
     same_scheme = t["scheme"] is not None and t["scheme"] == base["scheme"]
-    same_auth = same_scheme and t["auth"] is not None and t["auth"] == base["auth"]
-    if k == 0 or not same_scheme:
+    same_auth = same_scheme and t["auth"] == base["auth"]
+    if k == 0 or not same_scheme or t["auth"] is None:
         return dict(t)
-    if k == 1 or not same_auth:
+    if k == 1 or not same_auth or not _abs_path(t["path"]) or not _abs_path(base["path"]):
         return {**t, "scheme": None}
-    if k == 2 or t["path"][0] != "" or base["path"][0] != "" or len(t["path"]) < 2 or len(base["path"]) < 2:
+    if k == 2:
         return {**t, "scheme": None, "auth": None}
     if k >= 4 and t["path"] == base["path"] and (t["query"] is not None or base["query"] is None):
         return {"scheme": None, "auth": None, "path": [""], "query": t["query"], "frag": t["frag"]}
